@@ -197,7 +197,9 @@ theorem exact_oracle' (h : WFIn cls initial) : oracle cls (rebalanceExact cls in
   · intro p hp q hq
     exact (specOrder_iff p q).2 fun hr => exact_order_le' h p hp q hq (le_of_lt hr)
   · intro p hp q hq
-    exact (specShare_iff p q).2 fun hr => exact_share' h p hp q hq hr.1 hr.2
+    refine (specShare_iff p q).2 fun hr => le_trans (exact_share' h p hp q hq hr.1 hr.2) ?_
+    have : 0 < ratio q.1 := lt_of_lt_of_le hr.1 hr.2
+    nlinarith
 
 end exact
 end HapVerif.C16
